@@ -13,9 +13,13 @@ from .core import *
 PROBE_TARGET = os.path.join(HARNESS, "target", "probe")
 
 
-def probe_rustc(wd, lib_rs="#![allow(unused)]\n", features=None):
-    """returns (env assignments, rustc argv) of the probe crate's own compilation"""
-    probe = os.path.join(wd, "probe")
+HOOK_FLAGS = ["--cfg", "bytecodealliance_wit_bindgen_verif", "--check-cfg", "cfg(bytecodealliance_wit_bindgen_verif)"]
+
+
+def probe_rustc(wd, lib_rs="#![allow(unused)]\n", features=None, hook=False):
+    """returns (env assignments, rustc argv) of the probe crate's own compilation; hook=True compiles /repo's wit-bindgen
+    with the verification cfg (native extern shims of the async runtime), in a target directory of its own"""
+    probe = os.path.join(wd, "probe-hook" if hook else "probe")
     os.makedirs(os.path.join(probe, ".cargo"), exist_ok=True)
     os.makedirs(os.path.join(probe, "src"), exist_ok=True)
     feat = ""
@@ -24,10 +28,12 @@ def probe_rustc(wd, lib_rs="#![allow(unused)]\n", features=None):
     open(os.path.join(probe, "Cargo.toml"), "w").write(
         '[package]\nname = "macrodeps-probe"\nversion = "0.0.0"\nedition = "2021"\n\n[lib]\n\n[dependencies]\n'
         f'wit-bindgen = {{ path = "{REPO}/crates/guest-rust"{feat} }}\n\n[workspace]\n')
-    open(os.path.join(probe, ".cargo", "config.toml"), "w").write("[net]\noffline = true\n")
+    open(os.path.join(probe, ".cargo", "config.toml"), "w").write(
+        "[net]\noffline = true\n" + ("[build]\nrustflags = [" + ", ".join(f'"{f}"' for f in HOOK_FLAGS) + "]\n" if hook else ""))
     shutil.copy(os.path.join(REPO, "Cargo.lock"), os.path.join(probe, "Cargo.lock"))
     open(os.path.join(probe, "src", "lib.rs"), "w").write(lib_rs)
-    env = dict(os.environ, CARGO_TARGET_DIR=PROBE_TARGET, CARGO_NET_OFFLINE="true")
+    env = dict(os.environ, CARGO_TARGET_DIR=PROBE_TARGET + ("-hook" if hook else ""), CARGO_NET_OFFLINE="true")
+    env.pop("RUSTFLAGS", None)
     subprocess.run(["cargo", "clean", "--offline", "-p", "macrodeps-probe"], cwd=probe, env=env, stdout=subprocess.PIPE, stderr=subprocess.PIPE)
     p = subprocess.run(["cargo", "build", "--offline", "-v"], cwd=probe, env=env, stdout=subprocess.PIPE, stderr=subprocess.STDOUT, text=True, timeout=3000)
     if p.returncode != 0:
